@@ -1,5 +1,5 @@
 """C03 -- well-formed text decodes to the values the dialect grammar assigns."""
-from .. import tablerules, langrules, parserules
+from .. import tablerules, langrules, parserules, effects, decrules
 
 
 def run(repo, res, tier):
@@ -13,6 +13,9 @@ def run(repo, res, tier):
         "T6 a comment/white-space run is skipped before every significant token read. "
         "Not decided: the denotation of each spelling (values are not computed), lexeme boundaries next to + # -.")
     tablerules.rule_tb1(repo, res)
+    effects.rule_e4(repo, res)
+    decrules.rule_gd1(repo, res)
+    decrules.rule_n2(repo, res)
     tablerules.rule_tb2_tb4(repo, res)
     tablerules.rule_tb5(repo, res)
     an = langrules.analyse(repo)
